@@ -196,6 +196,26 @@ func checkC03(c c03Case, ctx *vCtx) *vFailure {
 				return vFailf("%s: %d leaves shown, %d expected\n%s", what, len(gotLeaves), nleaves, r.Stdout)
 			}
 		}
+		// conservation at the top level, in every mode and also when a food is a path prefix of another:
+		// the top-level rows add up to everything that was logged
+		{
+			sum := new(big.Rat)
+			n := 0
+			for _, g := range out.Rows {
+				if g.Depth == 0 {
+					sum.Add(sum, vRat(g.Val))
+					n++
+				}
+			}
+			tol := vRatMul(big.NewRat(int64(n)+1, 200), big.NewRat(1, 1))
+			tol.Add(tol, vRatMul(vRelSlack, vRatAdd(big.NewRat(1, 1), grand.Mag)))
+			if c.S.Exact {
+				tol = new(big.Rat)
+			}
+			if vRatAbs(vRatSub(sum, grand.V)).Cmp(tol) > 0 {
+				return vFailf("%s: the top-level rows add up to %s, but the logged quantities add up to %s\n%s", what, sum.FloatString(2), grand.V.FloatString(2), r.Stdout)
+			}
+		}
 		if c.Single != "" {
 			if out.TotalOf != c.Single {
 				return vFailf("%s: grand total row names %q", what, out.TotalOf)
@@ -245,7 +265,7 @@ func c03Sorted(what string, rows []vBalRow) *vFailure {
 func genC03(t *rapid.T) c03Case {
 	// a small segment alphabet and up to five segments: shared prefixes, chains and forks are the norm
 	s := vGenScenario(t, vScenOpts{Paths: true, MinDays: 1, MaxDays: 4, MaxEntries: 8, NUnknown: 6, MaxRecipes: 9,
-		PathSegs: []string{"a", "b", "c d", "a", "b", "50%", "c%d"}, PathMax: 5})
+		PathSegs: []string{"a", "b", "c d", "a", "b", "50%", "c%d", ".", ".."}, PathMax: 5})
 	c := c03Case{S: s}
 	switch rapid.IntRange(0, 9).Draw(t, "single") {
 	case 0, 1, 2, 3, 4:
